@@ -19,6 +19,6 @@ failed=set(re.findall(r'^(?:FAIL|ERROR): (\S+)',log,re.M))
 base=json.load(open('/root/.vp/BASELINE.json'))['stable_pass']
 missing=[b for b in base if not any(b.endswith(p) for p in passed)]
 print('PASS %d FAIL %s' % (len(passed), sorted(failed)))
-print('baseline tests not passing:', missing)
+print('baseline tests not passing: %d %s' % (len(missing), missing[:6]))
 sys.exit(1 if missing else 0)
 P
